@@ -1,7 +1,5 @@
 package hotline
 
-import "io"
-
 // Layout + prefix of Field for every data length that fits the 16-bit prefix.
 func VH_C01_FieldLayout() {
 	t0, t1 := vU8("t0"), vU8("t1")
@@ -21,23 +19,5 @@ func VH_C01_FieldDrain() {
 	t0, t1 := vU8("t0"), vU8("t1")
 	data := vBytes("data", 65535)
 	f := NewField([2]byte{t0, t1}, data)
-	full := refField(t0, t1, data)
-	L := len(full)
-	o := vInt("cursor")
-	vAssume(0 <= o && o <= L)
-	k := vInt("bufsize")
-	vAssume(1 <= k && k <= 70000)
-	f.readOffset = o
-	p := make([]byte, k)
-	n, err := f.Read(p)
-	vObserveInt("n", n)
-	if o == L {
-		vAssert("eof", n == 0 && err == io.EOF)
-		return
-	}
-	want := vMin(k, L-o)
-	vAssert("n", n == want)
-	vAssert("err", err == nil || (err == io.EOF && o+n == L))
-	vAssertEqBytes("bytes", p[:n], full[o:o+n])
-	vAssert("cursor", f.readOffset == o+n)
+	c01DrainStep(vEnc{f.Read, func(o int) { f.readOffset = o }, func() int { return f.readOffset }}, refField(t0, t1, data), 70000)
 }
